@@ -30,6 +30,7 @@ type lenFact struct {
 	min      int64 // proven lower bound on len(s)
 	anyCheck bool  // some dominating condition mentions len(s) (or cap(s))
 	unparsed bool  // ... and at least one of them could not be turned into a bound (relational test)
+	exact    int64 // > 0: the buffer is a helper result of exactly this many bytes (x[a:a+n] for a constant n)
 }
 
 func isLenOf(v ssa.Value) (ssa.Value, bool) {
@@ -173,12 +174,13 @@ func (c *Ctx) lenMinOnOutcome(eng *ranges.Engine, sc *ssa.Function, i, ridx int,
 // outcome `want` (bool value / nil error): the minimum over the callee's matching returns of the
 // returned slice's length, where a slice expression x[a:a+n] / x[:n] with n a parameter of the callee
 // takes the lower bound of the corresponding argument at the call.
-func (c *Ctx) resultLenOnOutcome(eng *ranges.Engine, fn *ssa.Function, call *ssa.Call, resIdx, outIdx int, want bool, depth int) (int64, bool) {
+func (c *Ctx) resultLenOnOutcome(eng *ranges.Engine, fn *ssa.Function, call *ssa.Call, resIdx, outIdx int, want bool, depth int) (int64, bool, bool) {
 	sc := call.Call.StaticCallee()
 	if sc == nil || sc.Blocks == nil || !load.InScope(sc) || depth > 2 || len(call.Call.Args) != len(sc.Params) {
-		return 0, false
+		return 0, false, false
 	}
 	best := int64(-1)
+	allExact := true
 	for _, rb := range sc.Blocks {
 		if len(rb.Instrs) == 0 {
 			continue
@@ -200,6 +202,7 @@ func (c *Ctx) resultLenOnOutcome(eng *ranges.Engine, fn *ssa.Function, call *ssa
 			continue
 		}
 		m := int64(0)
+		exactHere := false
 		rv := ret.Results[resIdx]
 		if sl, ok := rv.(*ssa.Slice); ok && sl.High != nil {
 			// length = high - low
@@ -218,9 +221,11 @@ func (c *Ctx) resultLenOnOutcome(eng *ranges.Engine, fn *ssa.Function, call *ssa
 					av := eng.At(fn, call.Call.Args[pi], call.Block())
 					if !av.IsBottom() && av.Lo() > 0 {
 						m = av.Lo()
+						exactHere = av.Lo() == av.Hi()
 					}
 				} else if k, ok := n.(*ssa.Const); ok && k.Value != nil {
 					m = k.Int64()
+					exactHere = true
 				}
 			}
 		}
@@ -229,14 +234,17 @@ func (c *Ctx) resultLenOnOutcome(eng *ranges.Engine, fn *ssa.Function, call *ssa
 				m = mm
 			}
 		}
+		if !exactHere || (best >= 0 && m != best) {
+			allExact = false
+		}
 		if best < 0 || m < best {
 			best = m
 		}
 	}
 	if best < 0 {
-		return 0, false
+		return 0, false, false
 	}
-	return best, true
+	return best, true, allExact
 }
 
 func (c *Ctx) lenFactsAtDepth(eng *ranges.Engine, fn *ssa.Function, s ssa.Value, b *ssa.BasicBlock, depth int) lenFact {
@@ -255,7 +263,10 @@ func (c *Ctx) lenFactsAtDepth(eng *ranges.Engine, fn *ssa.Function, s ssa.Value,
 				}
 				if oc, ridx, wantOnTrue, ok := ranges.OutcomeOfCond(ifCond(d)); ok && oc == call {
 					want := wantOnTrue == (d.Succs[0] == cb)
-					if m, ok := c.resultLenOnOutcome(eng, fn, call, ex.Index, ridx, want, depth); ok && m > 0 {
+					if m, ok, isExact := c.resultLenOnOutcome(eng, fn, call, ex.Index, ridx, want, depth); ok && m > 0 {
+						if isExact {
+							f.exact = m
+						}
 						// the outcome test is a length test only if the helper guarantees a length on
 						// that outcome (an error test alone says nothing about len)
 						if m > f.min {
@@ -487,6 +498,8 @@ func (c *Ctx) sliceObligations(eng *ranges.Engine, funcs map[*ssa.Function]bool,
 					f := c.lenFactsAt(eng, fn, x.X, b)
 					construct := addrExpr(x.X) + "[" + k.Value.String() + "]"
 					switch {
+					case f.exact > 0 && k.Int64() >= f.exact && !f.unparsed:
+						add("SLICE-CONST", fn, construct, report.Violated, ins, fmt.Sprintf("the buffer is the result of a helper that returns exactly %d bytes on the tested outcome; constant index %s is past its end on every execution that gets here", f.exact, k.Value.String()))
 					case f.min > k.Int64():
 						add("SLICE-CONST", fn, construct, report.Discharged, ins, fmt.Sprintf("len >= %d established on a dominating edge", f.min))
 					case f.anyCheck || !streamSlice(fn, x.X):
